@@ -43,14 +43,61 @@ M64 = (1 << 64) - 1
 
 # ------------------------------------------------------------------ probes
 
+_BINS = None
+
+
 def build_probes():
+    global _BINS
+    if _BINS is None:
+        _BINS = _build_probes()
+    return _BINS
+
+
+def _build_probes():
     helpers = C.helper_pkgs()
     helpers['internal/zzverif/c14u'] = {'c14u.go': os.path.join(C.HARNESS, 'c14', 'c14u', 'c14u.go')}
     b, err = C.overlay_build('c14-mem', 'internal/bytecode/memory',
                              {'zz_verif_c14_test.go': os.path.join(C.HARNESS, 'c14', 'memory_probe_test.go')}, helpers)
     if b is None:
         raise C.Infra('probe c14-mem does not build against the current tree:\n' + err[-3000:])
-    return {'mem': b}
+    tg = os.path.join(C.BUILD, 'c14_targets_test.go')
+    src = gen_targets_go()
+    if not os.path.exists(tg) or open(tg).read() != src:
+        open(tg, 'w').write(src)
+    extra = dict(helpers)
+    extra['internal/bytecode'] = {'zz_verif_c14_export.go': os.path.join(C.HARNESS, 'c14', 'bytecode_export', 'zz_verif_c14_export.go')}
+    bt, err = C.overlay_build('c14-text', 'internal/patch',
+                              {'zz_verif_c14_test.go': os.path.join(C.HARNESS, 'c14', 'patch_probe_test.go'),
+                               'zz_verif_c14_targets_test.go': tg}, extra)
+    if bt is None:
+        raise C.Infra('probe c14-text does not build against the current tree:\n' + err[-3000:])
+    return {'mem': b, 'text': bt}
+
+
+N_T, N_B, N_P = 40, 4, 12
+PKG = 'github.com/tencent/goom/internal/patch.'
+
+
+def gen_targets_go():
+    """Real functions for the text lane: leaf arithmetic only (no calls, no RIP-relative operands, no stack check), so that
+    goom can also relocate them into a placeholder.  T<k>: k statements (tiny .. ~250 bytes); B: origins for the
+    placeholder lane; P: large placeholders, so many that some straddle a page end."""
+    stmts = ['a = a*3 + b', 'b ^= a >> 3', 'a += b << 2', 'b = b*5 - a', 'a ^= b >> 7', 'b += a*9']
+    out = ['package patch', '']
+    names = []
+
+    def fn(name, k):
+        names.append(name)
+        body = '; '.join(stmts[(i + len(name)) % len(stmts)] for i in range(k))
+        out.append(f'//go:noinline\nfunc {name}(a, b int) int {{ {body}; return a + b }}')
+    for k in range(N_T):
+        fn(f'zzC14T{k:02d}', k)
+    for k in range(N_B):
+        fn(f'zzC14B{k}', 50 + 7 * k)
+    for k in range(N_P):
+        fn(f'zzC14P{k:02d}', 150 + k % 5)
+    out.append('var zzC14Funcs = map[string]interface{}{' + ', '.join(f'"{n}": {n}' for n in names) + '}')
+    return '\n'.join(out) + '\n'
 
 
 def run_strace(binary, test, ops_path, out_path, tag, timeout=1800):
@@ -304,6 +351,154 @@ def execute(ops, tag='c14'):
     return impl, model, raw, calls, base, (log if rc != 0 else '')
 
 
+def run_text_survey(bins):
+    """Phase 1: GetFuncSize + genJumpData on EVERY function symbol of the test binary. -> list of dicts"""
+    ops_path = os.path.join(C.BUILD, 'c14.survey.ops')
+    open(ops_path, 'w').write('c14.survey\n')
+    outp = os.path.join(C.BUILD, 'c14.survey.impl')
+    if os.path.exists(outp + '.survey'):
+        os.remove(outp + '.survey')
+    rc, log = C.run_probe(bins['text'], 'TestVerifC14Text', ops_path, outp)
+    head = C.read_indexed(outp, 1)[0]
+    if rc != 0 or head is None or not os.path.exists(outp + '.survey'):
+        raise C.Infra(f'survey probe failed rc={rc}:\n{log[-2000:]}')
+    fs = []
+    for line in open(outp + '.survey'):
+        name, addr, dist, gsize, first, cls = line.rstrip('\n').split('\t')
+        fs.append({'name': name, 'addr': int(addr), 'dist': int(dist), 'gsize': int(gsize), 'first': first, 'cls': cls})
+    return head, fs
+
+
+def gen_text_ops(fs, tier, rng):
+    by = {f['name']: f for f in fs}
+    ops = []
+
+    def inst(f, size=None, inject=False, extra=''):
+        eo = f['addr'] % 4096
+        return f"c14.install {eo} {f['gsize'] if size is None else size} {f['first']} name={f['name']}" + (' inject=1' if inject else '') + extra
+    targets = [by[PKG + f'zzC14T{k:02d}'] for k in range(N_T) if PKG + f'zzC14T{k:02d}' in by]
+    bigs = [by[PKG + f'zzC14B{k}'] for k in range(N_B) if PKG + f'zzC14B{k}' in by]
+    phs = [by[PKG + f'zzC14P{k:02d}'] for k in range(N_P) if PKG + f'zzC14P{k:02d}' in by]
+    for f in targets + bigs:
+        ops.append(inst(f))
+    # the size test with injected sizes (GetFuncSize cache seeded by the probe): every size 0..40 and some large ones
+    sizes = list(range(0, 41)) + [64, 1023, 1024, 1025, 1 << 20]
+    for i, n in enumerate(sizes):
+        f = targets[i % len(targets)]
+        ops.append(f"c14.gen {n} name={f['name']} inject=1")
+        if n <= 16 or n % 8 == 0 or tier == 'thorough':
+            ops.append(inst(f, size=n, inject=True))
+    # the placeholder lane (oracle only): every placeholder once (all origins in thorough)
+    for j, p in enumerate(phs):
+        for b in (bigs if tier == 'thorough' else [bigs[j % len(bigs)]]):
+            ops.append(f"c14.tramp name={b['name']} tramp={p['name']}")
+    return ops
+
+
+def pages_of(lo, n):
+    return set(range(lo // 4096, (lo + n - 1) // 4096 + 1)) if n > 0 else set()
+
+
+def oracle_calls(calls, lo, n, what, cover=True):
+    """x never dropped, one page per call, only pages holding a byte of [lo,lo+n), all succeed, rwx..rx per page."""
+    allowed = pages_of(lo, n)
+    last, seen = {}, set()
+    for a, ln, prot, res in calls:
+        if 'x' not in prot:
+            return f'{what}: mprotect({a:#x}, {ln}, {prot}) drops the execute bit'
+        if a % 4096 or ln != 4096:
+            return f'{what}: mprotect({a:#x}, {ln}) is not exactly one page'
+        if a // 4096 not in allowed:
+            return f'{what}: mprotect on page {a:#x} which holds no written byte'
+        if res != '0':
+            return f'{what}: mprotect({a:#x}) failed: {res}'
+        if prot == 'rwx':
+            seen.add(a // 4096)
+        last[a // 4096] = prot
+    if cover and calls and not allowed <= seen:
+        return f'{what}: a page holding written bytes was never made writable'
+    if any(v != 'rx' for v in last.values()):
+        return f'{what}: a page is left {sorted(set(last.values()))}'
+    return None
+
+
+def oracle_text(op, obs, ph):
+    """ph = [calls of replaceFunc, calls of Apply, calls of Unpatch]."""
+    if obs is None:
+        return 'no observation (the probe crashed while patching real text)'
+    cmp_part, _, extra = obs.partition(' | ')
+    kv = dict(p.split('=', 1) for p in extra.split() if '=' in p)
+    if cmp_part.startswith('refused:'):
+        if int(kv['textdiff']) != 0:
+            return f'refused, but {kv["textdiff"]} byte(s) of .text changed'
+        if any(ph):
+            return 'refused, but mprotect was called: ' + str([c for p in ph for c in p][:4])
+        if kv['image_same'] != 'true':
+            return 'refused, but the image protections changed'
+        if kv['panic'] != '-':
+            return 'panic:' + kv['panic']
+        return None
+    if cmp_part in ('no-such-target', 'no-such-symbol'):
+        return None
+    tramp = op.startswith('c14.tramp')
+    if not tramp and int(op.split()[2]) < 13:
+        return f'a function of {op.split()[2]} bytes (too short to hold the 13-byte jump) was patched instead of refused'
+    entry, ta, tsz = int(kv['entry'], 16), int(kv['tramp'], 16), int(kv['trampsize'])
+    if kv['to_ok'] != 'true':
+        return 'the 8 address bytes of the entry jump are not the replacement function value'
+    if int(kv['stray']) or int(kv['stray_after']):
+        return f'{kv["stray"]}/{kv["stray_after"]} byte(s) outside the entry jump (and outside the placeholder body) changed'
+    if 'restored=true' not in cmp_part:
+        return 'Unpatch did not restore the 13 entry bytes'
+    if kv['image_applied'] != 'true' or kv['image_after'] != 'true':
+        return 'protections of the executable image differ from before (a page left writable or not executable)'
+    if not tramp and (int(kv['n_patch']) or ph[0]):
+        return 'replaceFunc without placeholder wrote to .text / called mprotect'
+    w = oracle_calls(ph[1], entry, 13, 'Apply') or oracle_calls(ph[2], entry, 13, 'Unpatch')
+    if w:
+        return w
+    if not ph[1] or not ph[2]:
+        return 'no mprotect traced for Apply/Unpatch'
+    if tramp:
+        return oracle_calls(ph[0], ta, tsz, 'placeholder write', cover=False)   # the written length is goom's business (C03); it must stay inside the body
+    return None
+
+
+def execute_text(ops, bins, tag='c14.text'):
+    ops_path = os.path.join(C.BUILD, f'{tag}.ops')
+    open(ops_path, 'w').write('\n'.join(ops) + '\n')
+    outp = os.path.join(C.BUILD, f'{tag}.impl')
+    rc, log, st = run_strace(bins['text'], 'TestVerifC14Text', ops_path, outp, tag)
+    raw = C.read_indexed(outp, len(ops))
+    if rc != 0 and not any(raw):
+        raise C.Infra(f'probe c14-text failed rc={rc}:\n{log[-2000:]}')
+    per = parse_strace(st)
+    impl, phases = [None] * len(ops), [None] * len(ops)
+    for i, op in enumerate(ops):
+        if raw[i] is None:
+            continue
+        cmp_part, _, extra = raw[i].partition(' | ')
+        kv = dict(p.split('=', 1) for p in extra.split() if '=' in p)
+        if op.startswith('c14.install') or op.startswith('c14.tramp'):
+            ph = [per.get(3 * i + k, []) for k in range(3)]
+            phases[i] = ph
+            if op.startswith('c14.tramp'):
+                impl[i] = 'oracle-only'
+            elif cmp_part.startswith('apply='):
+                pbase = int(kv['pbase'], 16)
+                r1, c1 = classify_calls(ph[1], 'nil')
+                r2, c2 = classify_calls(ph[2], 'nil')
+                t = cmp_part.split()
+                impl[i] = f'apply={r1} {t[1]} calls={canon_calls(c1, pbase)} unpatch={r2} {t[3]} calls2={canon_calls(c2, pbase)}'
+            else:
+                impl[i] = cmp_part
+        else:
+            impl[i] = cmp_part
+    exe, err = C.build_driver()
+    model = C.run_driver(exe, ops_path, os.path.join(C.BUILD, f'{tag}.model')) if exe else None
+    return impl, model, raw, phases, (log if rc != 0 else '')
+
+
 def pages_crossed(op):
     _, off, hx, perms = op.split()
     n = 0 if hx == '-' else len(hx) // 2
@@ -334,7 +529,50 @@ def run(tier):
     for i, op, why in bad[:3]:
         out.violation(f'{op[:120]}: {why}', {'kind': 'impl-oracle', 'ops': [op], 'observed': raw[i], 'calls': canon_calls(calls[i] or [], base),
                                              'why': why, 'how': 'python3 check.py C14 --replay <this file>'})
+    # text lane: survey of every function, then the real Patch/Apply/Unpatch
+    bins = build_probes()
+    head, fs = run_text_survey(bins)
+    sv = {'functions': len(fs), 'min entry-to-entry distance': min(f['dist'] for f in fs),
+          'min entry-to-entry distance among accepted targets': min(f['dist'] for f in fs if f['cls'] == 'nil'),
+          'refused by genJumpData (GetFuncSize <= 13)': sum(1 for f in fs if f['cls'] != 'nil'),
+          'GetFuncSize over-runs the next symbol (classified, harmless for the entry write)': sum(1 for f in fs if f['gsize'] > f['dist']),
+          'entries whose 13 bytes cross a page end': sum(1 for f in fs if f['addr'] % 4096 > 4096 - 13),
+          'function alignment (gcd of entry addresses)': __import__('functools').reduce(__import__('math').gcd, [f['addr'] for f in fs])}
+    tbad = []
+    for f in fs:
+        if f['cls'] == 'nil' and f['dist'] < 13:
+            tbad.append((-1, f'c14.gen {f["gsize"]} name={f["name"]}',
+                        f'accepted as a target although the next function starts {f["dist"]} bytes after its entry: the 13-byte jump overwrites a neighbour'))
+            break
+    if 'textdiff=0' not in head or 'image_same=true' not in head:
+        tbad.append((-1, 'c14.survey', 'reading function sizes changed .text or the image protections: ' + head))
+    sops = [f'c14.gen {f["gsize"]} name={f["name"]}' for f in fs]
+    simpl = [('ok len=13' if f['cls'] == 'nil' else 'err:' + f['cls']) for f in fs]
+    tops = gen_text_ops(fs, tier, rng)
+    timpl, tmodel, traw, tph, tlog = execute_text(tops, bins)
+    for i, op in enumerate(tops):
+        why = None
+        if op.startswith('c14.install') or op.startswith('c14.tramp'):
+            why = oracle_text(op, traw[i], tph[i] or [[], [], []])
+        elif traw[i] is None:
+            why = 'no observation'
+        elif 'textdiff=0' not in traw[i]:
+            why = 'genJumpData changed .text'
+        if why:
+            tbad.append((i, op, why))
+    for i, op, why in tbad[:3]:
+        out.violation(f'{op[:160]}: {why}', {'kind': 'impl-oracle', 'lane': 'text', 'ops': [op], 'observed': traw[i] if i >= 0 else head, 'why': why,
+                                             'how': 'python3 check.py C14 --replay <this file>'})
+    bad += tbad
     # 2. correspondence
+    sp = os.path.join(C.BUILD, 'c14.surveygen.ops')
+    open(sp, 'w').write('\n'.join(sops) + '\n')
+    exe, _ = C.build_driver()
+    smodel = C.run_driver(exe, sp, os.path.join(C.BUILD, 'c14.surveygen.model')) if exe else None
+    n_scratch = len(ops)
+    ops = ops + tops + sops
+    impl = impl + timpl + simpl
+    model = (model + (tmodel or [None] * len(tops)) + (smodel or [None] * len(sops))) if model is not None else None
     diffs = C.diff_streams(ops, impl, model) if model is not None else []
     if model is None:
         proof['failed'].append(('goomdrv', 'driver does not build: ' + str(perr)[-500:]))
@@ -352,7 +590,14 @@ def run(tier):
     wr = [(i, op) for i, op in enumerate(ops) if op.startswith('c14.write')]
     dist = {'write ops': len(wr), 'pagestart ops': sum(1 for op in ops if op.startswith('c14.ps')),
             'pages crossed': {}, 'length buckets': {}, 'initial perms (non r-x pages present)': 0, 'outcomes (impl)': {},
-            'gen_modules_changed_this_run': changed}
+            'gen_modules_changed_this_run': changed, 'text lane: survey of the test binary': sv,
+            'text lane ops': {k: sum(1 for o in tops if o.startswith(k)) for k in ('c14.install', 'c14.gen', 'c14.tramp')},
+            'text lane outcomes': {}}
+    for i, o in enumerate(tops):
+        r = (timpl[i] or 'none').split()[0].split(':')[0]
+        dist['text lane outcomes'][r] = dist['text lane outcomes'].get(r, 0) + 1
+    dist['placeholder writes that crossed a page end'] = sum(
+        1 for i, o in enumerate(tops) if o.startswith('c14.tramp') and tph[i] and len({c[0] for c in tph[i][0]}) > 1)
     for i, op in wr:
         c = pages_crossed(op)
         dist['pages crossed'][str(c)] = dist['pages crossed'].get(str(c), 0) + 1
@@ -364,6 +609,8 @@ def run(tier):
         r = (impl[i] or 'none').split()[0]
         dist['outcomes (impl)'][r] = dist['outcomes (impl)'].get(r, 0) + 1
     nontrivial = len({(op.split()[1], len(op.split()[2]), op.split()[3]) for i, op in wr if impl[i] and impl[i].startswith('res=ok')})
+    nontrivial += sum(1 for i, o in enumerate(tops) if timpl[i] and (timpl[i].startswith('apply=ok') or timpl[i].startswith('ok ')))
+    nontrivial += len({f['gsize'] for f in fs if f['cls'] == 'nil'})
     out.coverage = {
         'obligations': proof['obligations'], 'discharged': proof['discharged'],
         'checker_cmd': ' ; '.join(proof['cmds']),
